@@ -1,4 +1,5 @@
 import Golib.Model.C17Strs
+import Golib.Model.C17Gram
 
 /-
 Driver of the C17 section of the oracle.
@@ -14,6 +15,8 @@ Every op line is one call on the subject string and is independent of the others
   remove <hexset>             RemoveRunes(s, r ∈ []rune(set))
   s2c <bool>                  SnakeToCamelCase(s, firstUp)
   round <bool>                CamelCaseToSnake(SnakeToCamelCase(s, firstUp))
+  isident                     s ∈ [a-z][a-z0-9]*(_[a-z][a-z0-9]*)*  (the grammar of the round-trip
+                              theorem; compared with the harness's regexp, not with /repo)
 -/
 namespace Golib.C17
 open Golib.Proto Golib.Utf8
@@ -41,6 +44,7 @@ def runOp (s : List Nat) (ts : List String) : String :=
   | ["ucfirst"] => showRes (ucFirst s)
   | ["lcfirst"] => showRes (lcFirst s)
   | ["c2s"] => showRes (camelToSnake s)
+  | ["isident"] => showBool (isSnakeIdent s)
   | ["remove", set] =>
     match unhex set with
     | some set => let rs := runes set; showRes (removeRunes s fun r => rs.contains r)
